@@ -17,13 +17,29 @@ import (
 // flow through a real Pipeline. Generator, scripted kinds and observer are the
 // shared code compiled into package pipeline for the verification build.
 
-func c02GFRun(gfYAML string, main *pipeline.Pipeline, ctx *context.Context) bool {
+func c02GFRun(gfYAML string, gen int, main *pipeline.Pipeline, ctx *context.Context) bool {
 	ss, err := supervisor.NewSpec(gfYAML)
 	if err != nil {
 		return false
 	}
 	gf := &GlobalFilter{}
 	gf.Init(ss)
+	switch gen {
+	case 1: // second generation from the same spec object
+		gf2 := &GlobalFilter{}
+		gf2.Inherit(ss, gf)
+		gf.Close()
+		gf = gf2
+	case 2: // second generation from a re-parsed equal spec
+		ss2, err := supervisor.NewSpec(gfYAML)
+		if err != nil {
+			panic("verif: re-parsed GlobalFilter spec rejected: " + err.Error())
+		}
+		gf2 := &GlobalFilter{}
+		gf2.Inherit(ss2, gf)
+		gf.Close()
+		gf = gf2
+	}
 	gf.Handle(ctx, main)
 	return true
 }
